@@ -318,11 +318,48 @@ _TWIN_LEAVES = {0: [0, 0.0, False, 0j, -0.0], 1: [1, 1.0, True, (1 + 0j)], 2: [2
                 255: [255, 255.0], 2 ** 31: [2 ** 31, float(2 ** 31)]}
 
 
-def _retype(v, rng):
+class TwinInt(int):
+    """equal to (and hashing like) the plain integer, but not a plain integer: must not be encoded as one"""
+
+
+class TwinStr(str):
+    pass
+
+
+class TwinFloat(float):
+    pass
+
+
+import enum as _enum
+
+
+class TwinEnum(_enum.IntEnum):
+    ZERO = 0
+    ONE = 1
+    TWO = 2
+    MINUS = -1
+    BYTE = 255
+
+
+def _retype(v, rng, subclasses=False):
     if type(v) is tuple:
-        return tuple(_retype(x, rng) for x in v)
+        return tuple(_retype(x, rng, subclasses) for x in v)
+    if type(v) is frozenset:
+        return frozenset(_retype(x, rng, subclasses) for x in v)
     if type(v) is int and v in _TWIN_LEAVES:
+        if subclasses and rng.random() < .5:
+            r = rng.randrange(3)
+            if r == 0:
+                return TwinInt(v)
+            if r == 1:
+                return TwinFloat(v)
+            try:
+                return TwinEnum(v)
+            except ValueError:
+                return TwinInt(v)
         return rng.choice(_TWIN_LEAVES[v])
+    if type(v) is str and subclasses and rng.random() < .5:
+        return TwinStr(v)
     return v
 
 
@@ -349,8 +386,22 @@ def gen_twin_family(rng):
             else:
                 items.append(base(depth + 1))
         return tuple(items)
-    b = rng.choice(keys) if rng.random() < .1 else base(0)
-    fam = [_retype(b, rng) for _ in range(rng.randrange(3, 6))]
+    r = rng.random()
+    if r < .1:
+        b = rng.choice(keys)
+    elif r < .4:
+        # frozensets (their own hash and equality make them the natural key of a memo), bare or inside a tuple
+        b = frozenset(rng.sample(keys + ["x", "scale"], rng.randrange(1, 4)))
+        if rng.random() < .4:
+            b = ("k", b, 1)
+    else:
+        b = base(0)
+    # plain twins first or subclass-typed twins first, in random order with the original: members that are instances of SUBCLASSES of
+    # int / float / str (an IntEnum member, a str subclass) are equal and hash alike but are not plain values
+    sub = rng.random() < .5
+    fam = [_retype(b, rng, subclasses=sub and rng.random() < .7) for _ in range(rng.randrange(3, 6))]
     fam.append(b)
     rng.shuffle(fam)
+    if sub and rng.random() < .6:
+        fam.insert(0, b)        # the plain one is seen first, its subclass-typed twins afterwards
     return fam
